@@ -356,10 +356,11 @@ def f_build_args(ctx: Ctx):
                    where(fi, fi.node), sample="absent, or part of the stored authority")
 
 
-def f3_join(ctx: Ctx):
+def f3_join(ctx: Ctx, only=None):
+    """`only`: the obligation groups the calling property depends on (C15: the dot-segment removal of the merged path)."""
     model = ctx.model
     rule = "F3"
-    ctx.rule(rule, floor=8, what="join(): RFC 3986 5.2.2 source of every result component")
+    ctx.rule(rule, floor=8 if only is None else len(only), what="join(): RFC 3986 5.2.2 source of every result component")
     fi = model.func("_url.URL.join")
     r = analyze(model, fi, merge=False)
     ctx.functions.add(fi.qual)
@@ -420,6 +421,11 @@ def f3_join(ctx: Ctx):
             ob("query-undecided", "query selection", False, "query selection does not test the reference's path and query", node, "")
         # path
         if rp_t is False:
+            # representation invariant of URL (build() and with_path() enforce it, the splitter produces it): under an authority the
+            # stored path is empty or rooted. A return path that assumes the opposite about the base is not a path of the program.
+            if truth(bn, f) is True and truth(bp, f) is True and \
+                    truth(("cmp", "Eq", ("sub", bp, ("const", 0)), ("const", "/")), f) is False:
+                continue
             ob("path-empty", "path when the reference path is empty", path == bp, "an empty reference path must keep the base path",
                node, "self._path")
             continue
@@ -459,5 +465,103 @@ def f3_join(ctx: Ctx):
             ob("merge", "merge of the base directory and the reference path", mentions_bp and mentions_rp,
                "a rootless reference path must be merged with the base path's directory", node, "base directory + url._path")
     for key, (cons, oks, msg, node, sample) in groups.items():
+        if only is not None and key not in only:
+            continue
         ctx.instance(rule)
         ctx.ob(rule, fi.qual, cons, all(oks), msg, where(fi, node), sample=f"{sample} ({len(oks)} path(s))")
+
+
+def f_sink(ctx: Ctx):
+    """F-SINK: the internal constructors store their five arguments as they are. Every other rule reads a call
+    `from_parts(scheme, netloc, path, query, fragment)` as "the new URL has exactly these components"; the statement's algebra
+    (same parent, other segments untouched, only its own component changes) holds for the stored text only if nothing between the
+    call and the slots rewrites it."""
+    model = ctx.model
+    rule = "F-SINK"
+    ctx.rule(rule, floor=5, what="from_parts / from_parts_uncached store each argument verbatim in its slot")
+    seen = 0
+    for name in SINK_NAMES:
+        rr = model.resolve_global("_url", name)
+        if not rr or rr[0] not in ("func", "memo_alias"):
+            raise AnalysisError(f"F-SINK: _url.{name} is not a function or a memoised alias of one (anchor vanished)")
+        fi = rr[1]
+        if fi.qual in ctx.functions and seen:
+            continue        # the memoised alias of the constructor already inspected
+        seen += 1
+        ctx.functions.add(fi.qual)
+        if len([p for p in fi.params]) != 5:
+            raise AnalysisError(f"F-SINK: {fi.qual} does not take the five components (unknown idiom)")
+        r = analyze(model, fi, merge=False)
+        per_slot = {p: [] for p in POS}
+        for s, v, node in r.returns:
+            if v[0] == "call" and v[1][0] == "global" and v[1][2] in SINK_NAMES and len(v[2]) == 5 and not v[3]:
+                got = dict(zip(POS, v[2]))         # a wrapper handing on to the other constructor
+            elif v[0] == "new":
+                got = {p: s.heap.get((v, SLOT[p])) for p in POS}
+            else:
+                raise AnalysisError(f"F-SINK: {fi.qual} returns {show(v)[:50]} (unknown idiom)")
+            for p, param in zip(POS, fi.params):
+                per_slot[p].append((got[p], ("param", param), node))
+        for p in POS:
+            ctx.instance(rule)
+            bad = [(g, n) for g, want, n in per_slot[p] if g != want]
+            ctx.ob(rule, fi.qual, f"{SLOT[p]} of the new URL", not bad and bool(per_slot[p]),
+                   f"the {p} handed to {fi.name}() is stored as {show(bad[0][0])[:60] if bad else '?'}, not as it was passed: every "
+                   "modifier's result differs from the components the modifier computed", where(fi, bad[0][1] if bad else fi.node),
+                   sample=f"{SLOT[p]} = {p} on {len(per_slot[p])} path(s)")
+
+
+def f_self(ctx: Ctx, K, methods=None):
+    """F-SELF: a modifier returns `self` instead of a new URL ("nothing to change") only after comparing like with like. Where
+    the path to `return self` rests on an equality between a stored component of self (a slot or a raw accessor) and text
+    derived from an argument, that text must already be in the stored component's form - the quoted / encoded argument. An
+    argument compared as supplied is decoded text set against encoded text: 'a%20b' equals the raw fragment 'a%20b' although
+    the fragment the call asks for is 'a%2520b', and an un-encoded host equals a stored host that was never canonicalised."""
+    from ..kinds import DEC, RAW, UNK
+    model = ctx.model
+    rule = "F-SELF"
+    ctx.rule(rule, floor=0 if methods else 1, what="`return self` short-cuts compare the canonicalised argument with the stored component")
+    n = 0
+    for name in MATRIX:
+        if methods and name not in methods:
+            continue
+        if not model.has_func(f"_url.URL.{name}"):
+            raise AnalysisError(f"anchor vanished: URL.{name}")
+        sites = {}
+        for fi, s, node, kind, _payload in outcomes(model, name):
+            if kind != "self":
+                continue
+            ctx.functions.add(fi.qual)
+            r = analyze(model, fi)
+            bad = []
+            for f in alternatives(s.facts):
+                for key, val in f.items():
+                    if key[0] != "cmp" or not ((key[1] == "Eq" and val is True) or (key[1] == "NotEq" and val is False)):
+                        continue
+                    for stored, other in ((key[2], key[3]), (key[3], key[2])):
+                        if not (stored[0] == "attr" and stored[1] == S):
+                            continue
+                        if not any(t[0] == "param" and t[1] not in ("self", "cls") for t in walk(other)):
+                            continue
+                        # the stored side is encoded text of some role. The scheme is exempt: its canonical form is a fixed point
+                        # of its canonicalisation (case folding), so text that equals a stored scheme is canonical already -
+                        # which percent-quoting (never idempotent on '%') and host encoding of unvalidated hosts are not
+                        ks = K.kind(stored, f, fi, None, r)
+                        if not ks or not all(x.startswith("ENC") for x in ks) or ks == {"ENC:scheme"}:
+                            continue
+                        kd = K.kind(other, f, fi, None, r)
+                        if kd & {DEC, RAW, UNK}:
+                            bad.append((stored, other, sorted(kd)))
+            sites.setdefault(id(node), [fi, node, []])[2].extend(bad)
+        for fi, node, bad in sites.values():
+            n += 1
+            ctx.instance(rule)
+            ctx.ob(rule, fi.qual, f"return self in {name}", not bad,
+                   (f"`self` is returned because self.{bad[0][0][2]} == {show(bad[0][1])[:40]}, but that operand is the argument as supplied "
+                    f"(kind {bad[0][2]}), not its canonical form: text that merely looks like the stored encoding is taken for it and the "
+                    "component the call asks for is never stored") if bad else "", where(fi, node),
+                   sample="no equality against un-canonicalised argument text on the path")
+    if not n and not methods:
+        raise AnalysisError("F-SELF: no modifier returns self (anchor vanished)")
+    ctx.instance(rule)
+    ctx.ob(rule, "<class URL>", "return-self paths of the modifiers", True, sample=f"{n} path(s) inspected", nontrivial=False)
